@@ -49,6 +49,13 @@ namespace AIToolbox::Factored {
              * If the two sizes are not equal, the constructor will throw
              * an std::invalid_argument exception.
              *
+             * The ids stored in the trie are used directly as positions
+             * in the container, so the trie must never have had entries
+             * erased from it (as is the case for a trie obtained from
+             * another FilterMap). A trie which still contains an id
+             * outside of the container is rejected with an
+             * std::invalid_argument exception.
+             *
              * @param t The trie to copy.
              * @param c The new items to store.
              */
@@ -57,6 +64,11 @@ namespace AIToolbox::Factored {
             {
                 if (ids_.size() != items_.size())
                     throw std::invalid_argument("Input trie and container have different sizes!");
+                // Equal sizes are not enough: after an erasure the trie
+                // holds as many ids as items, but not the ids 0..size-1.
+                for (const auto id : ids_.filter(Factors{}))
+                    if (id >= items_.size())
+                        throw std::invalid_argument("Input trie contains ids outside of the container (entries were erased from it)!");
             }
 
             /**
